@@ -82,6 +82,32 @@ def run(tier):
             run.coverage["spec_drift"] = run.coverage.get("spec_drift", 0) + drift_total
             vlib.log("[rp] %s: %d model transitions replayed on the real pool, drift %d" % (cfg, len(edges), drift_total))
 
+        # ---------------- TV: wound mode behind AggregateWounds over an inner pool whose Close may fail
+        stride = 8 if tier == "quick" else 1
+        cjobs = []
+        for k in range(min(stride, 8) if stride > 1 else 8):
+            def cjob(k=k):
+                tp = os.path.join(d, "close-%d.ndjson" % k)
+                if stride > 1:
+                    a = ["c18-close", "-stride", stride * 8, "-phase", (k * stride + run.seed) % (stride * 8), "-out", tp]
+                else:
+                    a = ["c18-close", "-stride", 8, "-phase", k, "-out", tp]
+                vlib.run_driver(binary, a, timeout=3000)
+                n = vlib.count_lines(tp)
+                res, viols = vlib.validate_trace("Trace_DripClose", "Trace_DripClose.cfg", tp, n, "TV close", timeout=3000)
+                return tp, n, res, viols
+            cjobs.append(cjob)
+        nclose = 0
+        for tp, n, res, viols in vlib.parallel(cjobs, nproc=8):
+            nclose += n
+            for ln, clauses in viols[:4]:
+                case = vlib.get_line(tp, ln)
+                run.violation({"clauses": clauses, "mode": "wound", "scale": "unit", "via": "aggregated-over-failing-close"}, case,
+                              "real ValidatingPool (wound mode behind AggregateWounds, inner Close %s) violates %s: signed %d units, written %d units (%s), good blocks %s, markers %s"
+                              % ("fails" if case["innerclosefails"] else "succeeds", clauses, case["sglen"], case["p"], case["slicing"], case["good"], [(m["k"], m["s"], m["e"]) for m in case["w"]]))
+        run.coverage["aggregated_close_cases"] = nclose
+        vlib.log("[tv] %d wound-mode cases behind the aggregating filter (inner Close succeeding / failing)" % nclose)
+
         # ---------------- TV: byte-precise slicings
         nbytes = 400 if tier == "quick" else 8000
         per = (nbytes + vlib.NCPU - 1) // vlib.NCPU
